@@ -32,6 +32,7 @@ class RefModel:
         self.wf = resp.get("wf")
         self.gen_rhs_valid = resp.get("gen_rhs_valid")
         self.helper_clash_free = resp.get("helper_clash_free")
+        self.gen_monitor_valid = resp.get("gen_monitor_valid")
         self.gen_rl_valid = resp.get("gen_rl_valid")
         self.order = self._topo()
 
@@ -126,6 +127,8 @@ def check_wf(ctx: Ctx, rm: "RefModel", text: str):
         ctx.broke("correspondence", "an accepted model for which code was generated is not ModelWF in the Lean loader model", text)
     elif rm.wf and rm.gen_rhs_valid is False:
         ctx.broke("proof-obligation", "GenValid.genRhs_valid contradicted by evaluation (checkRhs (Impl.genRhs m) = false on a ModelWF model)", text)
+    if rm.wf and rm.gen_monitor_valid is False:
+        ctx.broke("proof-obligation", "GenValidMon.genMonitor_valid contradicted by evaluation (checkMonitor (Impl.genMonitor m) = false on a ModelWF model)", text)
     if rm.wf and rm.helper_clash_free and rm.gen_rl_valid is False:
         ctx.broke("proof-obligation", "GenValidRL.rl_generators_valid contradicted by evaluation (checkScheme (Impl.genGRL/genHybrid m) = false on a ModelWF model without helper-name clashes)", text)
     if rm.wf:
